@@ -256,3 +256,19 @@ pub fn breadcrumb(property: &str, unit: serde_json::Value) {
     });
     let _ = std::fs::write(dir.join(format!("inflight-{}.json", slot)), doc.to_string());
 }
+
+/// Digits carry pids, thread ids and line numbers: every run of digits becomes a single '#'.
+pub fn mask_digits(s: &str) -> String {
+    let mut out = String::with_capacity(s.len());
+    let mut in_run = false;
+    for c in s.chars() {
+        if c.is_ascii_digit() {
+            if !in_run { out.push('#'); }
+            in_run = true;
+        } else {
+            out.push(c);
+            in_run = false;
+        }
+    }
+    out
+}
